@@ -565,8 +565,10 @@ impl State {
                 bad!("node {id}: height {h} exceeds the limit {max_allowed}");
             }
             match scope_height(&n.created_in) {
+                // (an invalid node belongs to a superseded run of its bind and is never scheduled
+                // again, so its height relative to the bind's current height is immaterial)
                 Some(sh) => {
-                    if h <= sh {
+                    if h <= sh && n.is_valid() {
                         bad!("node {id}: height {h} is not above its defining bind's height {sh}");
                     }
                 }
